@@ -118,7 +118,7 @@ func (m c01) Run(ctx *core.Ctx) {
 		ctx.Begin(cs)
 		m.Exec(ctx, cs)
 	}
-	n := split(tierN(ctx.Tier, 1_000_000, 40_000_000), ctx.Shard, ctx.NShards)
+	n := split(tierN(ctx.Tier, 2_000_000, 40_000_000), ctx.Shard, ctx.NShards)
 	for i := int64(0); i < n; i++ {
 		in := gen.Input(ctx.Rng)
 		if ctx.Rng.IntN(4) == 0 {
